@@ -309,6 +309,8 @@ SHAPES = [
     "https://www.google.com/url?sa=t&{P}&usg=A", "https://www.google.com/search?{P}",
     "https://www.youtube.com/redirect?event=e&{P}", "https://l.facebook.com/l.php?{P}&h=AT",
     "a.com/p?{P}", "//a.com/p?{P}", "/p?{P}", "?{P}", "http://[::1]:8080/p?{P}",
+    # characters whose case mapping changes the LENGTH of the string in front of the parameter (U+0130 lower-cases to two characters, U+00DF upper-cases to two)
+    "http://a.com/\u0130stanbul?{P}&lang=tr", "http://a.com/\u0130\u0130/stra\u00dfe?x=\u0130&{P}&y=2",
     # bare / path position (the parameter sits before any '?')
     "{P}", "{P}&y=2", "http://a.com/{P}", "http://a.com/p&{P}", "http://a.com/p&{P}/z?x=1", "p&{P}",
     # fragment position
